@@ -67,6 +67,16 @@ class OwnBlockRejected(Exception):
         self.violation = violation
 
 
+class PropertyViolation(Exception):
+    """raised by shared builders when the implementation visibly violates a property while a scenario is being
+    set up; `props` are the properties whose predicate it is"""
+
+    def __init__(self, props, violation):
+        super().__init__(violation.get("kind"))
+        self.props = props
+        self.violation = violation
+
+
 class Driver:
     """the Lean model behind its line protocol; batch mode: all lines in, all lines out"""
 
